@@ -13,7 +13,7 @@ search:  the property statement on the real code with exact-rational oracles: al
          constructor contracts incl. degenerate geometry, frame shifts with variational
          particles against exact truncated-polynomial (dual number) arithmetic
 """
-import ctypes, itertools, math, os, sys
+import ctypes, itertools, json, math, os, sys
 from fractions import Fraction as Fr
 sys.path.insert(0, os.path.dirname(os.path.abspath(__file__)))
 from common import *
@@ -190,7 +190,7 @@ def rotations(c, rebound, exe):
         expect.append(" ".join(d2h(x) for x in exp))
         meta.append((tag, soft))
 
-    n = 6000 if c.thorough else 800
+    n = 20000 if c.thorough else 800
     rng = c.rng.fork()
     worst = {}
     hist = {}
@@ -303,7 +303,7 @@ def rotations(c, rebound, exe):
     add("identity", ql(F["rotation_identity"]()), "rotation_identity")
 
     # ---------------- from_to (all branches)
-    nft = 6000 if c.thorough else 1000
+    nft = 30000 if c.thorough else 1000
     variant_votes = {"asfound": 0, "fixed": 0, "both": 0, "neither": 0}
     ft_cases = []
     for i in range(nft):
@@ -360,7 +360,7 @@ def rotations(c, rebound, exe):
                           {k_: repr(_lc[k_])[:400] for k_ in ['f', 't', 'cls'] if k_ in _lc}))
 
     # ---------------- angle-axis, orbit, new axes, slerp
-    nc = 3000 if c.thorough else 500
+    nc = 10000 if c.thorough else 500
     for i in range(nc):
         try:
             ang = rng.choice([0.0, math.pi, -math.pi, math.pi / 2, 2 * math.pi, 1e-9, rng.uniform(-10, 10), rng.uniform(-1e3, 1e3)])
@@ -545,11 +545,12 @@ def rotations(c, rebound, exe):
         c.corr_break("%d rotation model/implementation lines differ; first: %s" % (ndis, first["routine"]), first)
     # ---------------- Python Rotation class = the C functions (thin wrapper): same answers through the class
     npy = 0
+    pybroken = False
     for f, t, cls, qv in ft_cases[:200]:
         r = rebound.Rotation(fromv=f, tov=t)
-        if [d2h(x) for x in [r.ix, r.iy, r.iz, r.r]] != [d2h(x) for x in qv]:
+        if [d2h(x) for x in [r.ix, r.iy, r.iz, r.r]] != [d2h(x) for x in qv] and not pybroken:
             c.corr_break("rebound.Rotation(fromv, tov) differs from reb_rotation_init_from_to", dict(f=f, t=t))
-            break
+            pybroken = True
         lf = math.sqrt(sum(x * x for x in f)); lt_ = math.sqrt(sum(x * x for x in t))
         if cls not in ("antiparallel-exact", "antiparallel-near") and 1e-100 < lf < 1e100 and 1e-100 < lt_ < 1e100:
             img = r * f
@@ -559,9 +560,9 @@ def rotations(c, rebound, exe):
         r2 = rebound.Rotation.from_to(f, t)
         v = r2 * [1.0, 2.0, 3.0]
         w = vl(F["vec3d_rotate"](V(1.0, 2.0, 3.0), mkq(qv)))
-        if [d2h(x) for x in [v.x, v.y, v.z]] != [d2h(x) for x in w]:
-            c.corr_break("Rotation.__mul__(vector) differs from reb_vec3d_rotate", dict(f=f, t=t))
-            break
+        if [d2h(x) for x in [v.x, v.y, v.z]] != [d2h(x) for x in w] and not pybroken:
+            c.corr_break("Rotation.__mul__(vector) differs from reb_vec3d_rotate (through Rotation.from_to)", dict(f=f, t=t))
+            pybroken = True
         npy += 1
     for i in range(100):
         ang = rng.uniform(-7, 7); ax = rvec(rng)
@@ -572,8 +573,9 @@ def rotations(c, rebound, exe):
         rm = r * ro; qm = F["rotation_mul"](q, qo)
         rn = rebound.Rotation.to_new_axes(newz=ax, newx=[ax[1], -ax[0], 0.3]); qn = F["rotation_init_to_new_axes"](V(*ax), V(ax[1], -ax[0], 0.3))
         for a, b, nm in ((r, q, "angle/axis"), (ri, qi, "inverse"), (ro, qo, "orbit"), (rm, qm, "__mul__"), (rn, qn, "to_new_axes")):
-            if [d2h(x) for x in ql(a)] != [d2h(x) for x in ql(b)]:
+            if [d2h(x) for x in ql(a)] != [d2h(x) for x in ql(b)] and not pybroken:
                 c.corr_break("rebound.Rotation %s differs from the C routine" % nm, dict(angle=ang, axis=ax))
+                pybroken = True
         # default x axis of to_new_axes: z cross newz
         rn2 = rebound.Rotation.to_new_axes(newz=ax)
         gz = rn2 * [x for x in ax]
@@ -735,7 +737,7 @@ def frame(c, rebound, exe):
     def snapshot(sim):
         return [[p.m] + [getattr(p, k) for k in COMPS6] for p in sim.particles]
 
-    nsim = 1500 if c.thorough else 250
+    nsim = 5000 if c.thorough else 250
     untouched_hel = 0
     for case in range(nsim):
         try:
@@ -807,11 +809,18 @@ def frame(c, rebound, exe):
                         Xt = S / Mt
                         want = [(xt[i] - Xt) for i in range(N)]
                         wv = [float(w.ca if order == 1 else w.cab) for w in want]
-                        mag = max([abs(w) for w in wv] + [scale]) * max(1.0, float(sum(abs(Fr(pre[i + index][0])) for i in range(N)) / Mx)) ** 2 \
-                            * max(1.0, float(sum(abs(m) for m in ms) / Mx))
+                        # size of the terms that are added up (they may cancel exactly, e.g. for N = 1):
+                        # coordinates x (1 + sum|dm_a|/M)(1 + sum|dm_b|/M) + sum|ddm|/M
+                        Mf = float(Mx)
+                        if order == 1:
+                            amp = 1.0 + sum(abs(pre[i + index][0]) for i in range(N)) / Mf
+                        else:
+                            amp = (1.0 + sum(abs(pre[i + ia][0]) for i in range(N)) / Mf) * (1.0 + sum(abs(pre[i + ib][0]) for i in range(N)) / Mf) \
+                                + sum(abs(pre[i + index][0]) for i in range(N)) / Mf
+                        mag = max([abs(w) for w in wv] + [scale]) * amp * N
                         e = max(abs(post[i + index][col] - wv[i]) for i in range(N)) / mag
                         note("move_to_com_var%d_vs_exact_derivative" % order, e)
-                        if not e <= 1e-11:
+                        if not e <= 1e-13:
                             fails.append(("move-to-com-var%d" % order, "order-%d variational particles are not the derivative of the shifted coordinates" % order,
                                           dict(component=k, order=order, index=index, ia=ia, ib=ib, N=N, pre=pre, got=[post[i + index][col] for i in range(N)], want=wv)))
                 else:
@@ -1002,7 +1011,7 @@ def units(c, rebound, exe, parsed, ref):
     lines, expect, meta = [], [], []
     for (l, t, m) in triples:
         lines.append("cg " + hv(U.G_SI, Ls[l], Ts[t], Ms[m])); expect.append(d2h(U.convert_G((l, t, m)))); meta.append(("convert_G", (l, t, m)))
-    npair = 4000 if c.thorough else 800
+    npair = 10000 if c.thorough else 800
     for i in range(npair):
         a, b = rng.choice(triples), rng.choice(triples)
         x = rng.normal() * rng.loguniform(1e-6, 1e6)
@@ -1070,7 +1079,7 @@ def units(c, rebound, exe, parsed, ref):
     fields = ["m", "x", "y", "z", "r", "vx", "vy", "vz", "ax", "ay", "az"]
     dims = {"m": (0, 0, 1), "x": (1, 0, 0), "y": (1, 0, 0), "z": (1, 0, 0), "r": (1, 0, 0),
             "vx": (1, -1, 0), "vy": (1, -1, 0), "vz": (1, -1, 0), "ax": (1, -2, 0), "ay": (1, -2, 0), "az": (1, -2, 0)}
-    ntarget = 3 if c.thorough else 1
+    ntarget = 5 if c.thorough else 1
     for idx, (l, t, m) in enumerate(triples):
         try:
             sim = rebound.Simulation()
@@ -1256,5 +1265,76 @@ def run(c):
         frame(c, rebound, exe)
 
 
+def replay(c, path):
+    """./check C20 --replay replays/C20-….json : re-execute the recorded failing input on the current tree"""
+    data = json.load(open(path))
+    key, rep = data.get("key", ""), data.get("replay", {})
+    d = build()
+    rebound = use_scratch_rebound(d)
+    c.cov["rule"] = "replay of " + path
+    c.count(("replay", key))
+    if "fromv" in rep and "tov" in rep:
+        f, t = [float(x) for x in rep["fromv"]], [float(x) for x in rep["tov"]]
+        r = rebound.Rotation(fromv=f, tov=t)
+        n2 = float(sum(Fr(x) ** 2 for x in (r.ix, r.iy, r.iz, r.r))) if r.r == r.r else float("nan")
+        img = r * f
+        lf, lt_ = math.sqrt(sum(x * x for x in f)), math.sqrt(sum(x * x for x in t))
+        e = max(abs(a / lf - b / lt_) for a, b in zip([img.x, img.y, img.z], t))
+        c.log("Rotation(fromv=%r, tov=%r): |q|^2 = %r, image of from/|from| - to/|to| = %.3g" % (f, t, n2, e))
+        if not (abs(n2 - 1) <= 1e-13 and e <= 1e-7):
+            c.violation(key, "from_to: not unit / does not map from to to (|q|^2 = %r, error %.3g)" % (n2, e), rep)
+    elif "newz" in rep and "newx" in rep:
+        nz, nx = [float(x) for x in rep["newz"]], [float(x) for x in rep["newx"]]
+        r = rebound.Rotation.to_new_axes(newz=nz, newx=nx)
+        lz = math.sqrt(sum(x * x for x in nz))
+        img = r * [x / lz for x in nz]
+        e = max(abs(a - b) for a, b in zip([img.x, img.y, img.z], [0, 0, 1]))
+        c.log("to_new_axes(newz=%r, newx=%r) * newz/|newz| = %r" % (nz, nx, [img.x, img.y, img.z]))
+        if not e <= 1e-12:
+            c.violation(key, "to_new_axes does not take newz to the z axis (error %.3g)" % e, rep)
+    elif "units" in rep and len(rep["units"]) == 3:
+        import rebound.units as U
+        l, t, m = rep["units"]
+        sim = rebound.Simulation()
+        sim.units = (l, t, m)
+        Gx = Fr(U.G_SI) * Fr(U.masses_SI[m]) * Fr(U.times_SI[t]) ** 2 / Fr(U.lengths_SI[l]) ** 3
+        ref = extract_c20.load_ref()
+        ok = abs(float((Fr(sim.G) - Gx) / Gx)) <= 4e-15 and sim.units == {"length": l, "time": t, "mass": m}
+        if l in ref["lengths"] and t in ref["times"] and (m in ref["masses"] or m in ref["GM"]):
+            rm, rmt = ref["masses"][m] if m in ref["masses"] else (ref["GM"][m][0] / Fr(U.G_SI), ref["GM"][m][1])
+            Kr = rm * ref["times"][t][0] ** 2 / ref["lengths"][l][0] ** 3
+            tol = float(rmt + 2 * ref["times"][t][1] + 3 * ref["lengths"][l][1]) + 1e-14
+            e = abs(float((Fr(sim.G) / Fr(U.G_SI) - Kr) / Kr))
+            c.log("units %r: G = %r, G/G_SI vs reference: %.3g (tolerance %.3g)" % ((l, t, m), sim.G, e, tol))
+            ok = ok and e <= tol
+        if not ok:
+            c.violation(key, "units %r: G / read-back inconsistent with SI or with the reference constants" % ((l, t, m),), rep)
+    else:
+        c.log("no dedicated replay for key %r: re-running the whole check with the recorded seed %r" % (key, data.get("seed")))
+        c.seed = int(data.get("seed", c.seed))
+        c.rng = SplitMix(c.seed * 1000003 + 20)
+        run(c)
+
+
 if __name__ == "__main__":
-    main("C20", run)
+    if "--replay" in sys.argv:
+        _p = sys.argv[sys.argv.index("--replay") + 1]
+        # a replay must not clobber the evidence of the last full run: its evidence goes to C20.replay.json
+        _ev = os.path.join(ROOT, "evidence", "C20.json")
+        _keep = open(_ev).read() if os.path.exists(_ev) else None
+        _orig_finish = Check.finish
+
+        def _finish(self):
+            rc = _orig_finish(self)
+            try:
+                os.replace(_ev, os.path.join(ROOT, "evidence", "C20.replay.json"))
+                if _keep is not None:
+                    with open(_ev, "w") as fh:
+                        fh.write(_keep)
+            except OSError:
+                pass
+            return rc
+        Check.finish = _finish
+        main("C20", lambda c: replay(c, _p))
+    else:
+        main("C20", run)
